@@ -419,15 +419,17 @@ func randomSchedule(rng *rand.Rand, out *Out, chainD []*nom.DetailedMomentum, ta
 
 func runReplay(rng *rand.Rand, n int, out *Out, _ []string) {
 	for h := 0; h < n; h++ {
-		replayHistory(rng, out, h == 0)
+		// every third history enforces the accelerator spork on its way
+		replayHistory(rng, out, h == 0, h%3 == 1)
 	}
 }
 
-func replayHistory(rng *rand.Rand, out *Out, first bool) {
+func replayHistory(rng *rand.Rand, out *Out, first, withSpork bool) {
 	a := NewNode()
 	defer a.Stop()
-	steps := 8 + rng.Intn(22) // plus 3..4 episodes of 4..10 momentums each (dependent.go)
-	plan := newDepPlan(rng, steps)
+	steps := 8 + rng.Intn(20) // plus 3..4 episodes of 4..10 momentums each (dependent.go)
+	plan := newDepPlan(rng, steps, withSpork)
+	defer plan.restoreSpork()
 	produceHistory(a, rng, out, steps, plan)
 	fr := FrontierOf(a.Ch)
 	chainD := DetailedRange(a.Ch, 2, fr.Height)
